@@ -209,7 +209,7 @@ def serialiser_clauses(ctx, chk, prop, seen):
     if len(serialisers) < 2:
         r5.violate(prop + "|R5|anchor-missing|serialisers", "expected the two response serialisers (callers of Response::generate_body returning Vec<u8>), found %r" % serialisers)
     for n in sorted(serialisers):
-        fn = F.fns[n]
+        fn = ctx.inl(F.fns[n])        # status-line / header-line helpers are part of the serialiser (A11)
         du = du_of(fn)
         cfg = cfg_of(fn)
         in_server = n in seen
@@ -244,23 +244,13 @@ def serialiser_clauses(ctx, chk, prop, seen):
                 r6.instance({"fn": n, "header": hname, "built_under": conds}, ok)
                 if not ok:
                     r6.violate((prop + "|R6|%s|%s|twice") % (n, hname), "%s can build %s twice on one path (branches %s are not mutually exclusive)" % (n, hname, conds), fn.file, fn.span["line"], n)
-        # R6 shape of the header loop
-        seq = []
-        for bid in cfg.rpo():
-            t = cfg.blocks[bid]["term"]
-            if t["k"] == "call" and callee_name(t) == "std::string::String::push_str":
-                v = du.val_operand(t["args"][1])
-                tgt = val_ref_target(du, du.val_operand(t["args"][0]))
-                seq.append((tgt, _push_desc(du, v), t["span"]["line"]))
-        # look for the 4-push pattern on one target: name, ': ', value, CRLF
-        found = False
-        for i in range(len(seq) - 3):
-            a, b, c, d = seq[i:i + 4]
-            if a[0] == b[0] == c[0] == d[0] and a[1] == "field:name" and b[1] == "const:: " and c[1] == "field:value" and d[1] == "const:\r\n":
-                found = True
+        # R6 shape of the header loop: name, ': ', value, CRLF appended in that order (push_str, extend_from_slice or one format!)
+        seqs = emission_sequences(ctx, fn)
+        pat = ["field:name", "const:: ", "field:value", "const:\r\n"]
+        found = any(q[i:i + 4] == pat for q in seqs for i in range(len(q)))
         r6.instance({"fn": n, "header_line_pattern": "name, ': ', value, CRLF", "found": found}, found)
         if not found:
-            r6.violate((prop + "|R6|%s|line-shape") % n, "%s does not append header lines as name, ': ', value, CRLF (pushes seen: %s)" % (n, [x[1] for x in seq][:12]), fn.file, fn.span["line"], n)
+            r6.violate((prop + "|R6|%s|line-shape") % n, "%s does not append header lines as name, ': ', value, CRLF (pushes seen: %s)" % (n, (max(seqs, key=len) if seqs else [])[:12]), fn.file, fn.span["line"], n)
         # R4 only for the serialiser the server uses
         if in_server:
             body_locals = [t["dest"]["l"] for _, t in fn.calls() if callee_name(t) == "response::Response::generate_body"]
@@ -426,19 +416,84 @@ def _disjoint(conds):
     return True
 
 
-def _push_desc(du, v, depth=0):
+def _push_desc(du, v, depth=0, upv=None):
     if v[0] == "const" and isinstance(v[1], str):
         return "const:" + v[1]
     if v[0] == "call" and v[2] and depth < 5:
-        return _push_desc(du, v[2][0], depth + 1)
+        return _push_desc(du, v[2][0], depth + 1, upv)
+    if v[0] in ("ref", "place") and upv is not None and v[1][0] == 1:
+        r = upv(v)
+        if r is not None:
+            return _push_desc(r[0], r[1], depth + 1)
     if v[0] in ("ref", "place"):
+        # `args.0` of the tuple that format_args! builds: the captured operand itself
+        pr = [p for p in v[1][1] if p != "*"]
+        d = du.unique_def(v[1][0])
+        if pr and isinstance(pr[0], tuple) and pr[0][0] == "f" and d is not None and d[0] == "assign" and d[3]["k"] == "aggregate" and d[3].get("agg") == "tuple" \
+                and pr[0][1] < len(d[3]["ops"]) and depth < 5 and not du.has_partial_writes(v[1][0]):
+            inner = du.val_operand(d[3]["ops"][pr[0][1]])
+            if len(pr) == 1:
+                return _push_desc(du, inner, depth + 1, upv)
         fields = [p[2] for p in v[1][1] if isinstance(p, tuple) and p[0] == "f"]
         if fields:
             return "field:" + fields[-1]
         vv = du.val_place((v[1][0], ()))
         if vv != v and depth < 5 and vv[0] != "place":
-            return _push_desc(du, vv, depth + 1)
+            return _push_desc(du, vv, depth + 1, upv)
     return "other"
+
+
+def upvar_value(ctx, fn, v):
+    """a place reached through the closure environment (`_1`) of closure `fn` -> the value the parent captured, else None"""
+    if fn.kind != "Closure" or v[0] not in ("ref", "place") or v[1][0] != 1:
+        return None
+    idx = [p[1] for p in v[1][1] if isinstance(p, tuple) and p[0] == "f"]
+    parent = ctx.F.fns.get(fn.parent)
+    if not idx or parent is None:
+        return None
+    pdu = du_of(parent)
+    for b in parent.blocks:
+        for s in b["stmts"]:
+            if s["k"] == "assign" and s["rv"]["k"] == "aggregate" and s["rv"].get("closure") == fn.def_ and idx[0] < len(s["rv"]["ops"]):
+                return pdu, pdu.val_operand(s["rv"]["ops"][idx[0]])
+    return None
+
+
+def emission_sequences(ctx, fn):
+    """what a serialiser appends, in order, as descriptors ('field:name', 'const: : ', ...): one sequence for its push_str calls and one
+    per format!(..) in the function and in the closures it builds (`headers.iter().map(|h| format!("{}{}{}{}", h.name, SEP, h.value, CRLF))`)"""
+    from ..fmtargs import format_parts, FORMAT_FNS
+    out = []
+    bodies = [fn] + [ctx.F.fns[e.dst] for e in ctx.G.out.get(fn.def_, []) if e.dst in ctx.F.fns and ctx.F.fns[e.dst].kind == "Closure"]
+    for body in bodies:
+        du = du_of(body)
+        cfg = cfg_of(body)
+
+        def desc(v, body=body, du=du):
+            return _push_desc(du, v, 0, (lambda x: upvar_value(ctx, body, x)) if body.kind == "Closure" else None)
+        seq = []
+        for bid in cfg.rpo():
+            t = cfg.blocks[bid]["term"]
+            if t["k"] != "call":
+                continue
+            c = callee_name(t)
+            if c in ("std::string::String::push_str", "std::vec::Vec::<T, A>::extend_from_slice") and len(t["args"]) == 2:
+                seq.append(desc(du.val_operand(t["args"][1])))
+            elif c in FORMAT_FNS:
+                fp = format_parts(du, du.val_call(t, 0, bid))
+                if fp is not None:
+                    parts, args = fp
+                    fs, ai = [], 0
+                    for prt in parts:
+                        if prt[0] == "lit":
+                            fs.append("const:" + prt[1])
+                        else:
+                            fs.append(desc(args[ai][1]) if ai < len(args) else "other")
+                            ai += 1
+                    out.append(fs)
+        if seq:
+            out.append(seq)
+    return out
 
 
 def _method_eq(v, depth=0):
